@@ -49,17 +49,18 @@ def tree_list(tier, which):
     else:
         if which == 'one':
             add(3, G.PROFILES, ALLV, 'all')
-            add(4, G.PROFILES, ALLV, 'two', 4)
-            add(5, ['bare', 'rich'], V2, 'default', 5)
+            add(4, G.PROFILES, V2, 'two', 4)
+            add(5, ['rich'], V2, 'default', 5)
         elif which == 'two':
             add(2, ['bare', 'rich', 'ns'], ALLV, 'all')
-            add(3, ['bare', 'rich', 'ns', 'cpi'], ALLV, 'two', 3)
+            add(3, ['bare', 'rich', 'ns', 'cpi'], V2, 'two', 3)
         elif which == 'three':
             add(3, ['rich'], V2, 'default')
         elif which == 'raw':
             add(4, ['cpi', 'rich', 'text', 'bare'], ALLV, 'all')
         else:
-            add(3, ['bare', 'rich', 'cpi'], ALLV, 'two')
+            add(2, ['bare', 'rich', 'cpi'], ALLV, 'two')
+            add(3, ['bare', 'rich', 'cpi'], V2, 'default', 3)
     return out
 
 
@@ -77,7 +78,7 @@ def path_groups(tier):
                 for ax2 in xdm.AXES:
                     # bounded so that the whole tier takes about half an hour on 16 cores: reduced tests and two predicates on the
                     # first step, every test and every predicate (chained ones included) on the second
-                    two = PG.two_step(PG.TESTS_RED, PG.PREDS_RED[:2], PG.TESTS_FULL, PG.PREDS_FULL[:6] + PG.PREDS_FULL[8:10],
+                    two = PG.two_step(PG.TESTS_RED[:2], PG.PREDS_RED[:2], PG.TESTS_FULL, [PG.PREDS_FULL[i] for i in (0, 1, 3, 5, 8, 9)],
                                       prefixes=[pre], axes_first=[ax], axes_second=[ax2])
                     groups['2|%s|%s|%s' % (pre, ax, ax2)] = ('two', list(PG.with_abbrev(two)))
                 three = PG.three_step(PG.TESTS_RED[1:3], prefixes=[pre], axes_first=[ax])
@@ -420,10 +421,11 @@ def run_case(cs, ast, ver, tok, pstr, ctxn, exp, acc, tier, also_ok=None):
             alt = norm_ns([n.ref for n in xdm.eval_path(cs.model, ast, ctxn, NSMAP, alt=flags)])
             if alt == got:
                 kind = 'known-deviation:' + '+'.join(flags)
-                acc.violation('C01|' + kind, '%s %s %s ctx=%s tree=%s path=%s' % (ver, cs.lib, cs.rk, ctxn.ref, G.to_xml(cs.desc), pstr),
-                              {'expected': [list(map(str, r)) for r in exp], 'observed': [list(map(str, r)) for r in got]},
-                              {'tid': cs.tid, 'desc': cs.desc, 'lib': cs.lib, 'rk': cs.rk, 'ver': ver, 'ast': ast,
-                               'ctx': list(ctxn.ref), 'is_ns': cs.is_ns})
+                for f in flags:         # a combination is reported under each of the recorded deviations it is made of
+                    acc.violation('C01|known-deviation:' + f, '%s %s %s ctx=%s tree=%s path=%s' % (ver, cs.lib, cs.rk, ctxn.ref, G.to_xml(cs.desc), pstr),
+                                  {'expected': [list(map(str, r)) for r in exp], 'observed': [list(map(str, r)) for r in got], 'deviations': list(flags)},
+                                  {'tid': cs.tid, 'desc': cs.desc, 'lib': cs.lib, 'rk': cs.rk, 'ver': ver, 'ast': ast,
+                                   'ctx': list(ctxn.ref), 'is_ns': cs.is_ns})
                 return kind
     if got and got[0][:1] == ('error',):
         kind = 'error:' + got[0][1]
@@ -440,7 +442,9 @@ def run_case(cs, ast, ver, tok, pstr, ctxn, exp, acc, tier, also_ok=None):
 
 
 _NODEMAP = {}
-KNOWN_DEVIATIONS = [('attr_self',), ('hidden_child',), ('attr_following_empty',), ('attr_self', 'attr_following_empty')]
+_DEV = ('attr_self', 'hidden_child', 'attr_following_empty')
+# every combination of the recorded deviations, smallest first: a path can meet two of them at once (//child::*/@*/@* with an element root)
+KNOWN_DEVIATIONS = [c for n in (1, 2, 3) for c in __import__('itertools').combinations(_DEV, n)]
 _RC = {}
 
 
@@ -503,8 +507,8 @@ def _run_raw(tl, asts, acc, tier):
                         for flags in KNOWN_DEVIATIONS:
                             if 'hidden_child' in flags and cs.rk != 'hidden':
                                 continue
-                            if norm_ns([n.ref for n in xdm.eval_path(cs.model, ast, ctxn, NSMAP, alt=flags)]) == got:
-                                kind, known = 'known-deviation:' + '+'.join(flags), True
+                            if not known and norm_ns([n.ref for n in xdm.eval_path(cs.model, ast, ctxn, NSMAP, alt=flags)]) == got:
+                                kind, known = 'known-deviation:' + flags[0], True
                         if got and got[0][:1] in (('error',), ('escape',)):
                             kind = got[0][0] + ':' + got[0][1]
                         acc.violation('C01|' + kind if known else 'C01|raw-item|%s|%s|%s|%s' % (kind, ctxn.kind, cs.rk, ast['steps'][0][1]),
